@@ -117,9 +117,118 @@ func VerifResolveCell() {
 			verifAssert(res.ActionType == SHIFT && res.ActionIndex == 7, "C04: shift/reduce without applicable precedence must shift")
 		}
 	} else {
+		// precedence is defined between a rule and a token: it never applies to two reductions
 		if p1.Prec == -1 || p2.Prec == -1 {
 			verifCover("rr-default")
-			verifAssert(res.ActionType == REDUCE && res.ActionIndex == -1, "C04: reduce/reduce without applicable precedence must reduce by the rule that appears first")
+		} else {
+			verifCover("rr-both-prec")
 		}
+		verifAssert(res.ActionType == REDUCE && res.ActionIndex == -1, "C04: a reduce/reduce conflict must reduce by the rule that appears first (precedence applies to shift/reduce only)")
+	}
+}
+
+// verifCellSetup builds the three-symbol grammar of VerifResolveCell with symbolic
+// precedences and returns the automaton object and the three candidate transitions.
+func verifCellSetup() (l *LALR1, tok, p1, p2 *symbol.Symbol, shift, red1, red2 Transistor) {
+	g := grammar.NewGrammar()
+	g.GenStartSymbol()
+	dollar := symbol.NewSymbol(1, "$")
+	g.InsertNewSymbol(dollar)
+	tok = symbol.NewSymbol(2, "t")
+	g.InsertNewSymbol(tok)
+	p1 = symbol.NewSymbol(3, "p1")
+	g.InsertNewSymbol(p1)
+	p2 = symbol.NewSymbol(4, "p2")
+	g.InsertNewSymbol(p2)
+	A := symbol.NewSymbol(5, "A")
+	g.InsertNewSymbol(A)
+	lvl := func(name string, s *symbol.Symbol) {
+		pr := verifIntIn(name+"Prec", -1, 3)
+		verifAssume(pr != 0)
+		ty := verifIntIn(name+"Assoc", 0, 2)
+		if pr == -1 {
+			verifAssume(ty == int(symbol.NONE))
+		}
+		s.Prec = pr
+		s.PrecType = symbol.E_Precedence(ty)
+	}
+	lvl("tok", tok)
+	lvl("r1", p1)
+	lvl("r2", p2)
+	if tok.Prec == p1.Prec {
+		verifAssume(tok.PrecType == p1.PrecType)
+	}
+	if tok.Prec == p2.Prec {
+		verifAssume(tok.PrecType == p2.PrecType)
+	}
+	if p1.Prec == p2.Prec {
+		verifAssume(p1.PrecType == p2.PrecType)
+	}
+	r0 := rule.NewProductoinRule(g.StartSymbol, []*symbol.Symbol{A})
+	r1 := rule.NewProductoinRule(A, []*symbol.Symbol{tok})
+	r2 := rule.NewProductoinRule(A, []*symbol.Symbol{tok, tok})
+	if p1.Prec != -1 {
+		r1.SetPrecSymbol(p1)
+	}
+	if p2.Prec != -1 {
+		r2.SetPrecSymbol(p2)
+	}
+	g.InsertNewRules(r0)
+	g.InsertNewRules(r1)
+	g.InsertNewRules(r2)
+	l = NewLALR(&g)
+	shift = Transistor{Index: 0, q: 0, sym_or_rule: 2, to: 7}
+	red1 = Transistor{Index: 1, q: 0, sym_or_rule: uint(1) | CheckMask, to: MaxInt}
+	red2 = Transistor{Index: 2, q: 0, sym_or_rule: uint(2) | CheckMask, to: MaxInt}
+	l.LookAheadSet[1] = []int{2}
+	l.LookAheadSet[2] = []int{2}
+	return
+}
+
+// VerifResolveCell3: a cell with three candidates (a shift and two reductions) in any order.
+// The statement's pairwise rules define a tournament; when one candidate beats both others
+// every order of pairwise resolution ends with it, and the cell must hold it. Cells without
+// such a candidate (cyclic preferences, %nonassoc ties) are outside the claim.
+func VerifResolveCell3() {
+	l, tok, p1, p2, shift, red1, red2 := verifCellSetup()
+	cands := []Transistor{shift, red1, red2}
+	perm := verifIntIn("order", 0, 5)
+	orders := [][3]int{{0, 1, 2}, {0, 2, 1}, {1, 0, 2}, {1, 2, 0}, {2, 0, 1}, {2, 1, 0}}
+	o := orders[verifConc(perm)]
+	list := []Transistor{cands[o[0]], cands[o[1]], cands[o[2]]}
+	set, err := l.CheckAndResolveConflict(0, list)
+	verifAssert(err == nil, "C04: CheckAndResolveConflict failed")
+	verifAssert(len(set[2]) == 1, "C04: cell not resolved to a single action")
+	res := set[2][0]
+	// 1 the reduction beats the shift, -1 the shift beats it, 0 neither (%nonassoc tie)
+	vsShift := func(p *symbol.Symbol) int {
+		if tok.Prec == -1 || p.Prec == -1 {
+			return -1
+		}
+		switch {
+		case p.Prec > tok.Prec:
+			return 1
+		case p.Prec < tok.Prec:
+			return -1
+		}
+		switch tok.PrecType {
+		case symbol.LEFT:
+			return 1
+		case symbol.RIGHT:
+			return -1
+		}
+		return 0
+	}
+	a, b := vsShift(p1), vsShift(p2)
+	switch {
+	case a == 1:
+		// rule 1 beats the shift and, being the earlier rule, rule 2
+		verifCover("three-first-rule")
+		verifAssert(res.ActionType == REDUCE && res.ActionIndex == -1, "C04: three candidates: the earlier rule beats the shift by precedence and must be reduced")
+	case a == -1 && b == -1:
+		verifCover("three-shift")
+		verifAssert(res.ActionType == SHIFT && res.ActionIndex == 7, "C04: three candidates: the shift beats both reductions and must be taken")
+	default:
+		verifCover("three-open")
 	}
 }
